@@ -584,10 +584,10 @@ func c17xRun(F btcutil.Amount, R int, mode int, explicitMax bool) {
 func VerifC17xFlushOrder() { c17xRun(200, 9, 0, false) }
 
 // quick: every order from the first close request on (incl. simultaneous
-// shutdown and early flushes), narrower fee range.
+// shutdown and early flushes).
 func VerifC17xLifeCycle() { c17xRun(200, 9, 1, false) }
 
 // thorough
 func VerifC17xFlushOrderThorough() { c17xRun(400, 16, 0, false) }
 func VerifC17xFlushOrderMaxFee()   { c17xRun(200, 9, 0, true) }
-func VerifC17xLifeCycleThorough()  { c17xRun(300, 13, 1, false) }
+func VerifC17xLifeCycleThorough()  { c17xRun(200, 9, 1, false) }
